@@ -276,7 +276,8 @@ def guard_valuations(n, full):
 def bounds(tier):
     if tier == "quick":
         return {"n_max": 4, "requests_per_step_max": 1, "guards": "all 2^n", "orders": "all",
-                "interpreter_binding": "all DAGs n<=4 x all guard valuations"}
+                "interpreter_binding": "all DAGs n<=4 x all guard valuations; chains of <= 4 statements whose guards are "
+                "one expression over a variable that the chain flips"}
     return {"n_max_d0": 5, "n_max_d2": 4, "n5_guards": "all-true, all-false, each single false",
             "n5_order_cap_per_dag": 400, "n5_d1": "all-true guards, first 24 orders per DAG",
             "orders_n<=4": "all"}
@@ -406,6 +407,7 @@ def record(acc, sub, detail, w):
 
 def run_shard(desc, acc):
     if desc["mode"] == "interp":
+        run_guard_family(acc)
         return run_interp_binding(desc, acc)
     n, d = desc["n"], desc["d"]
     mod, rem = desc["mod"], desc["rem"]
@@ -537,8 +539,78 @@ def run_interp_binding(desc, acc):
                 acc.traces += 1
 
 
+def run_guard_family(acc, only=None):
+    """Guards that are expressions over a variable the step itself changes: chains of <= 4 statements, each either F
+    (unguarded: <p>g <- -<p>g) or E (guarded by the SAME expression <p>g > 0: <p>e_k <- 1).  A guard is evaluated when
+    its statement is visited, on the values of that moment."""
+    import itertools as _it
+    from dagrt.exec_numpy import NumpyInterpreter
+    from dagrt.language import Assign, DAGCode, ExecutionPhase
+    from pymbolic.primitives import Comparison, Product, Variable
+    g = Variable("<p>g")
+
+    class Rec(NumpyInterpreter):
+        def exec_Assign(self, stmt):
+            self.rec.append(stmt.id)
+            return super().exec_Assign(stmt)
+
+    for n in (2, 3, 4):
+        for seq in _it.product("EF", repeat=n):
+            if seq.count("E") < 2 or "F" not in seq:
+                continue
+            for g0 in (1, -1):
+                if only is not None and only != ["".join(seq), g0]:
+                    continue
+                stmts = []
+                for k, role in enumerate(seq):
+                    dep = ["s%d" % (k - 1)] if k else []
+                    if role == "F":
+                        stmts.append(Assign(id="s%d" % k, assignee="<p>g", assignee_subscript=(),
+                                            expression=Product((-1, g)), depends_on=dep))
+                    else:
+                        stmts.append(Assign(id="s%d" % k, assignee="<p>e%d" % k, assignee_subscript=(), expression=1,
+                                            condition=Comparison(g, ">", 0), depends_on=dep))
+                init = [Assign(id="i0", assignee="<p>g", assignee_subscript=(), expression=g0)]
+                dag = DAGCode({"init": ExecutionPhase("init", "ph", init), "ph": ExecutionPhase("ph", "ph", stmts)},
+                              "init")
+                it = Rec(dag, {})
+                it.set_up(t_start=0, dt_start=1, context={})
+                it.rec = []
+                list(it.run_single_step())
+                cur = g0
+                acc.evaluations += 1
+                for step in range(2):
+                    want = []
+                    for k, role in enumerate(seq):
+                        if role == "F":
+                            cur = -cur
+                            want.append("s%d" % k)
+                        elif cur > 0:
+                            want.append("s%d" % k)
+                    it.rec = []
+                    try:
+                        list(it.run_single_step())
+                        got = list(it.rec)
+                    except Exception as e:
+                        got = ["%s: %s" % (type(e).__name__, e)]
+                    acc.transitions += n
+                    if got != want:
+                        w = {"via": "interpreter", "guard_family": ["".join(seq), g0]}
+                        acc.violation("exec-iff-guard(interpreter)",
+                                      "C04/exec-iff-guard(interpreter):guard on a variable the step changes, chain %s g0=%d"
+                                      % ("".join(seq), g0), w,
+                                      "chain %s (F: <p>g <- -<p>g, E: guarded by <p>g > 0), <p>g = %d before the first step: "
+                                      "step %d executed %s, expected %s" % ("".join(seq), g0, step + 1, got, want))
+                        break
+                acc.traces += 1
+
+
 def replay(witness):
     w = witness
+    if "guard_family" in w:
+        acc = kernel.Acc()
+        run_guard_family(acc, only=w["guard_family"])
+        return acc.violations
     if w.get("via") == "interpreter":
         acc = kernel.Acc()
         # re-run only this DAG through the interpreter binding
